@@ -669,6 +669,15 @@ fn parse_line(s: &LineBuf) -> (r: Result<Option<Name>, IoError>)
         r matches Ok(None) ==> s.text().len() == 0,
 { unimplemented!() }
 
+// The line-by-line walk keeps a cursor `last` = handle of the newest entry.  An edit may drop the cursor and use `prev`
+// throughout (held-out seed C18/2 = C16/1).  So that such code is JUDGED by the walk's invariants (which must name the
+// newest entry) instead of ending as "anchor lost": when the walk arm declares NO cursor at all (`let mut X = prev;`
+// absent), a GHOST cursor `last` is declared before the loop and a statement-form `chroms.insert_after(..);` (result
+// dropped) hands its result to that ghost cursor.  Ghost code only: what the code computes is untouched; the ghost
+// `last` is, by construction, the newest entry, so the invariant `scan/last_is_the_newest_entry` then speaks about the
+// LIST, and `scan/new_entry_goes_right_behind_the_newest` / `scan/every_run_start_passed_so_far_is_recorded` decide.
+// (A cursor under another name leaves `last` undefined: front-end refusal, exit 2.  A real `last` whose insert result
+// is dropped gets no ghost help: it is judged as it stands and fails `scan/last_is_the_newest_entry`.)
 fn do_index(
         file_size: u64,
         file: &mut VLines,
@@ -756,6 +765,8 @@ fn do_index(
                         spliced(c, l0, *chroms, p, a, b),
                         chroms@.len() >= l0@.len(), chroms@[p] == l0@[p],
                         forall|i: int| p < i <= p + (chroms@.len() - l0@.len()) ==> (#[trigger] chroms@[i]).0 < file.pos(),
+                        
+                        chroms.has(prev), chroms.pos(prev) == p,
                         
                         chroms.has(last), chroms.pos(last) == p + (chroms@.len() - l0@.len()),
                         file.pos() == a ==> chroms@.len() == l0@.len(),
